@@ -629,7 +629,7 @@ def main(tier, replay=None):
     quick = tier == "quick"
     counts = {"states": 0, "transitions": 0}
     cmds = []
-    stats = {"canon_programs": 0, "gen_programs": 0, "layouts": 0, "place_layouts": 0, "place_replayed": 0, "files": 0,
+    stats = {"canon_programs": 0, "gen_programs": 0, "layouts": 0, "place_states": 0, "place_replayed": 0, "files": 0,
              "files_skipped": 0, "binary": 0, "fixed_point_checked": 0, "with_comments": 0, "issues": 0}
     samples = []
     nontrivial = set()
@@ -653,7 +653,7 @@ def main(tier, replay=None):
                           "CanonInit", "CanonNext", ["Injective", "Relexes", "CanonEmit"])
     rc = tlc("MC_Fmt", canon_cfg, "Fmt canon domain (Injective, Relexes; Deviations = {})")
     # ---- part (b): the placer
-    place_consts = {"MaxL": "5" if quick else "6", "MaxStmts": "3" if quick else "4", "MaxCmts": "4",
+    place_consts = {"MaxL": "5" if quick else "6", "MaxStmts": "3" if quick else "4", "MaxCmts": "3" if quick else "4",
                     "Spices": '{"frag", "glue", "look"}', "KnownDevs": tla_set(kplace),
                     "EmitEvery": "41" if quick else "61", "EmitPhase": str(sd % 41 if quick else sd % 61)}
     place_cfg = write_cfg(gd, "place", place_consts, "PlaceInit", "PlaceNext",
@@ -730,6 +730,9 @@ def main(tier, replay=None):
         items.append(("gen:%s:%d" % (fam, i), p, rfid.s(c["code"]), rfid.s(c["design"]), c["devs"],
                       sd * 1000003 + 500000 + i, K, 0.25))
     stats["gen_programs"] = len(gprogs)
+    if quick:
+        # the exhaustive Gen families are large next to their variety: a seeded half of them (all of `sim`)
+        items = [it for q, it in enumerate(items) if not it[0].startswith("gen:misc") or (q + sd) % 2 == 0]
     seen_place = {"yes": 0, "na": 0, "look": 0, "glue": 0, "frag": 0}
     for c in rp.replays:
         seen_place[c["design"]["fixed"]] = seen_place.get(c["design"]["fixed"], 0) + 1
@@ -749,7 +752,7 @@ def main(tier, replay=None):
     results = C.proc_map(hp, work_programs, items, chunk=60, workers=10)
     # ---- replay: the placer's layouts
     pitems = [(c, sd * 1000003 + i) for i, c in enumerate(rp.replays)]
-    stats["place_layouts"] = (rp.distinct or 0)
+    stats["place_states"] = (rp.distinct or 0)
     presults = C.proc_map(hp, work_place, pitems, chunk=200, workers=10)
     stats["place_replayed"] = len(presults)
     # ---- the shipped files
